@@ -629,7 +629,15 @@ pub fn run(line: &str) -> Option<(String, Vec<String>)> {
         };
         // ---- oracle: the spec cursor
         let (sres, nk, _) = spec.step(k, op);
-        if sres != rname {
+        // a cube-map read past the end with a wrong-size buffer: both clauses apply ("operations past the end fail with
+        // the no-more-surfaces error", "wrong-size buffers are rejected without moving") and the statement does not say
+        // which wins; either rejection is accepted (the state must be unchanged in both cases, checked below)
+        let both_apply = matches!(op, Op::Cube(..))
+            && sres == "UnexpectedSurfaceSize"
+            && nk == k
+            && k >= spec.flat.len()
+            && spec.faces.is_some();
+        if sres != rname && !(both_apply && rname == "NoMoreSurfaces") {
             oracle.push(format!("op {i} {}: result {rname}, spec cursor says {sres}", op.fmt()));
         }
         k = nk;
